@@ -55,6 +55,7 @@ def gen(rng, tier):
             ng = 1 - (sx ^ sy)
         x = fin(a, ea, neg=sx, mode=rng.randint(0, 5), pad=rng.choice([0, 1]))
         y = fin(b, eb, neg=sy, mode=rng.randint(0, 5))
+        c = max(c, 1)
         u = fin(c, ec, neg=ng, mode=rng.randint(0, 5), pad=rng.choice([0, 0, 2]))
         z = C01.recv(rng, prec=p)
         shape = rng.choice(SHAPES)
